@@ -14,7 +14,7 @@ def run(ctx):
     n = 10 if not ctx.thorough else 60
     js = jobs.make_jobs(ctx.rng, optimizers.names(), ["cont", "cont-sym", "cont-zero", "cont-scalars", "multiobj", "multiobj", "disc", "binary", "mixed", "perm", "perm"], n,
                         modes=("serial", "serial", "thread") if not ctx.thorough else ("serial", "thread", "process"), max_cycles_choices=(1, 2, 3), multi=True)
-    ctx.rule("all exported optimizers × tasks (continuous, multi-objective with random non-negative weights, discrete/binary/mixed/permutation for the pairs that run today) × 4 single + 2 multi objectives × min/max × seeds × modes; a sixth of the runs on an instance that has just solved another task (same space and seed, other objective/direction); "
+    ctx.rule("all exported optimizers × tasks (continuous, multi-objective with random non-negative weights, discrete/binary/mixed/permutation for the pairs that run today) × 4 single + 2 multi objectives × min/max × seeds × modes; a sixth of the runs on an instance that has just solved another task (same space and seed, other objective/direction); half of the weighted tasks re-weighted after construction and use; "
              "for every reported agent the harness re-evaluates objective(position) (and np.dot with the weights) and the documented fitness formula and compares bit-for-bit; a case = one run; "
              "non-trivial = result with ≥ 2 generations")
     # a sixth of the runs use an optimizer instance that has just solved another task on the same space with the same seed
@@ -23,6 +23,13 @@ def run(ctx):
         j["warmup"] = {"objective": ctx.rng.choice([o for o in ("sphere", "linear", "rastrigin", "neg") if o != j["objective"]]) if j.get("weights") is None else j["objective"],
                        "minmax": "max" if j["minmax"] == "min" else "min"}
         j["kind"] = j["kind"] + "+reused-instance"
+    # half of the weighted tasks were built with OTHER weights (same count), used once, then re-weighted (assignment / model_copy(update=…)):
+    # reported costs are the weighted sums under the weights the task has when optimize() is called
+    for j in js:
+        if j.get("weights") is not None and ctx.rng.random() < 0.5:
+            j["weights_initial"] = [ctx.rng.choice([0.0, 0.25, 1.0, 3.0]) for _ in j["weights"]]
+            j["weights_via"] = ctx.rng.choice(["assign", "copy"])
+            j["kind"] = j["kind"] + "+reweighted-task"
     results = pmap(trace.run_traced, js)
     C01.judge(ctx, results, ["C02"])
 
